@@ -23,6 +23,9 @@ META = {
     'technique': 'static analysis: constant audit (who-may-use literal delimiters), provenance of call arguments, use-site audit of formatted text',
 }
 
+
+META['explanation'] += ' Rounds 4-5: ' + 'R6 (= C13.R1) the character-set recognisers accept every member of their set (any may be chosen as separator and is then validated as ISA16).'
+
 DELIMS = set('~*:^\\|')
 INPUT_MODULES = ('rawx12file', 'x12file', 'segment', 'map_if', 'map_walker', 'syntax', 'validation', 'error_handler',
                  'x12n_document', 'x12context', 'path', 'nodeCounter', 'map_index', 'dataele', 'codes')
